@@ -34,6 +34,11 @@ fn check<T: Decodable + Encodable + PartialEq + std::fmt::Debug>(o: &mut Out, r:
                         o.direct(k == w.len(), "C02: partial parse consumes exactly the bytes produced", id.clone(), k.to_string(), w.len().to_string()); }
         Err(e) => o.direct(false, "C02: deserialize(serialize(x)) == x", id.clone(), format!("Err({})", e), "Ok".into()),
     }
+    // any legal io::Write / io::Read: short writes and short reads change nothing
+    let (cw, cl) = encode_chunked(x);
+    o.direct(cw == w && cl == Some(w.len()), "C02: consensus_encode into a short-writing io::Write gives the same bytes and count", id.clone(), format!("{} bytes, reported {:?}", cw.len(), cl), format!("{} bytes", w.len()));
+    let cr = decode_chunked::<T>(&w);
+    o.direct(cr.as_ref().map(|(y, k)| y == x && *k == w.len()).unwrap_or(false), "C02: consensus_decode from a short-reading io::Read gives the same value and count", id.clone(), format!("{:?}", cr.as_ref().map(|(_, k)| *k)), format!("Some({})", w.len()));
     // strict parsing rejects any non-empty suffix; partial parsing reports the same count with the suffix left over
     let k = r.range(1, 5) as usize; let mut ws = w.clone(); ws.extend(r.bytes(k));
     o.direct(deserialize::<T>(&ws).is_err(), "C02: strict parse rejects trailing bytes", format!("c01_dec {} {}", ty, hex(&ws)), "Ok".into(), "Err".into());
@@ -47,12 +52,14 @@ fn check<T: Decodable + Encodable + PartialEq + std::fmt::Debug>(o: &mut Out, r:
 pub fn run(o: &mut Out, tier: &str, seed: u64) {
     let mut r = Rng::new(seed);
     let (n, big) = if tier == "thorough" { (3000, 3000usize) } else { (400, 400usize) };
-    for it in 0..n {
-        let mut s = gen::shape(&mut r);
-        if it % 10 == 0 { s.ring = r.range(7, 40) as usize; s.nin = r.range(1, 8) as usize; s.nout = r.range(0, 18) as usize; s.nbp = r.below(5) as usize; }
-        if it % 97 == 0 { s.nout = big; s.rct = *r.pick(&[RctType::Bulletproof2, RctType::Clsag, RctType::BulletproofPlus, RctType::Null]); s.version = 2; }
-        if it % 101 == 0 { s.extra_len = r.range(120, 20_000) as usize; }
-        if it % 103 == 0 { s.ring = big; s.nin = 1; s.nout = 1; s.rct = *r.pick(&[RctType::Clsag, RctType::Simple, RctType::Bulletproof]); }
+    let sweep = gen::sweep_shapes(); let ns = sweep.len(); o.stat_n("shape-sweep", ns as u64);
+    for it in 0..n + ns {
+        let mut s = if it < ns { sweep[it].clone() } else { gen::shape(&mut r) };
+        let rnd = it >= ns;
+        if rnd && it % 10 == 0 { s.ring = r.range(7, 40) as usize; s.nin = r.range(1, 8) as usize; s.nout = r.range(0, 18) as usize; s.nbp = r.below(5) as usize; }
+        if rnd && it % 97 == 0 { s.nout = big; s.rct = *r.pick(&[RctType::Bulletproof2, RctType::Clsag, RctType::BulletproofPlus, RctType::Null]); s.version = 2; }
+        if rnd && it % 101 == 0 { s.extra_len = r.range(120, 20_000) as usize; }
+        if rnd && it % 103 == 0 { s.ring = big; s.nin = 1; s.nout = 1; s.rct = *r.pick(&[RctType::Clsag, RctType::Simple, RctType::Bulletproof]); }
         let tx = gen::tx_of(&mut r, &s);
         o.stat(&format!("shape.v{}.rct{}.in{}.out{}.ring{}", s.version, if s.version == 1 || s.nin == 0 { -1 } else { gen::rct_num(s.rct) as i32 }, bucket(s.nin), bucket(s.nout), bucket(s.ring)));
         check(o, &mut r, &tx, "tx", "generated");
